@@ -61,6 +61,18 @@ def c04(A):
                               and any(p.get("t") == "CONNACK" and p.get("rc") for p in A.inbound_pkts(e))]
             idle = (not prev_connects) or (refused_before and prev_connects[-1]["i"] < refused_before[-1]["i"]
                                            and not _accepted_between(A, c, prev_connects[-1]["i"], call["i"]))
+            if c.lost_at(call["i"]) and call["phase"] == "lost" and "did" in ret and A.reqs[ret["did"]].called_at_return:
+                r0 = A.reqs[ret["did"]]
+                busy = False          # an earlier connect() after the loss that is still waiting for its timeout
+                for call2, ret2, _pk in attempts[:n]:
+                    if call2["i"] > c.i_lost and "did" in ret2:
+                        r2 = A.reqs[ret2["did"]]
+                        if not r2.called_at_return and not r2.fired_before(call["i"]):
+                            busy = True
+                if not busy and r0.failed() and r0.fires[0]["etype"] == "MQTTStateError":
+                    o.bad("connect-refused-on-idle/on-lost-protocol",
+                          "connect() refused with MQTTStateError on a protocol that is idle again after its connection was lost", call)
+                continue
             if c.lost_at(call["i"]) and call["phase"] == "lost" and "did" in ret and not A.reqs[ret["did"]].called_at_return:
                 # connect() on the protocol object of a lost connection ("after any connection loss the
                 # protocol is idle"): nothing can answer, so the Deferred must fail exactly once, no later
@@ -336,13 +348,17 @@ def boundary_state(A, c, i):
         return "lost"
     if c.i_close_req is not None and c.i_close_req < i:
         return "closing"
-    if c.i_connect_write is None or c.i_connect_write > i:
-        return "idle"
     if c.i_connack_ok is not None and c.i_connack_ok < i:
         return "connected"
-    if c.i_refused is not None and c.i_refused < i:
+    connects = [e for e in getattr(c, "connects", []) if e["i"] < i]
+    if not connects:
         return "idle"
-    # a CONNACK that blew up / a timeout that fired leave don't-care states
+    last = connects[-1]["i"]
+    # has the latest CONNECT been answered (by a refusal) yet?
+    for e in c.ins:
+        if last < e["i"] < i and A._completed(e, c) and any(p.get("t") == "CONNACK" for p in A.inbound_pkts(e)):
+            return "idle"          # refused (an acceptance would have made it "connected" above)
+    # a CONNACK that blew up / a timeout that fired leave don't-care states (see _handshake_disturbed)
     return "connecting"
 
 
